@@ -1,0 +1,27 @@
+//go:build verif
+
+package client
+
+import "sync/atomic"
+
+// This file is compiled only with the "verif" build tag. It exposes yield
+// points to external runtime monitors.
+
+var verifPointFn atomic.Pointer[func(string)]
+
+// VerifSetPoint registers fn to be called at each named yield point. A nil fn
+// removes the registration.
+func VerifSetPoint(fn func(string)) {
+	if fn == nil {
+		verifPointFn.Store(nil)
+		return
+	}
+	verifPointFn.Store(&fn)
+}
+
+// verifPoint is a named yield point placed between critical sections.
+func verifPoint(name string) {
+	if f := verifPointFn.Load(); f != nil {
+		(*f)(name)
+	}
+}
